@@ -19,9 +19,13 @@ DaysPerCycle == 146097
 SecPerDay == 86400
 
 \* days before year-in-cycle y (y = 400 gives the cycle length): counted, not computed
-DBYTab == [y \in 0..400 |-> 365 * y + Cardinality({j \in 0..(y - 1) : IsLeap(j)})]
-CumN == LET f[m \in 1..13] == IF m = 1 THEN 0 ELSE f[m - 1] + DaysInMonth(FALSE, m - 1) IN f
-CumL == LET f[m \in 1..13] == IF m = 1 THEN 0 ELSE f[m - 1] + DaysInMonth(TRUE, m - 1) IN f
+\* (bound names are deliberately unusual: a state variable of the same name in a model defeats TLC's caching of constant tables)
+DBYTab == [yTab \in 0..400 |-> 365 * yTab + Cardinality({jTab \in 0..(yTab - 1) : IsLeap(jTab)})]
+\* days before month m (m = 13: the year length): explicit tables, tied to the month-length axiom by the ASSUME below
+CumN == <<0, 31, 59, 90, 120, 151, 181, 212, 243, 273, 304, 334, 365>>
+CumL == <<0, 31, 60, 91, 121, 152, 182, 213, 244, 274, 305, 335, 366>>
+ASSUME /\ CumN[1] = 0 /\ CumL[1] = 0
+       /\ \A m \in 1..12 : CumN[m + 1] = CumN[m] + DaysInMonth(FALSE, m) /\ CumL[m + 1] = CumL[m] + DaysInMonth(TRUE, m)
 Cum(leap) == IF leap THEN CumL ELSE CumN
 ASSUME DBYTab[400] = DaysPerCycle /\ CumN[13] = 365 /\ CumL[13] = 366 /\ DaysPerCycle % 7 = 0
 
